@@ -32,4 +32,7 @@ Definition run (comp : Z) (inp : list Z) : list Z :=
   else if comp =? 71 then run_play inp
   else if comp =? 61 then run_file_hist inp
   else if comp =? 62 then run_heap_hist inp
+  else if comp =? 80 then run_msg2str inp
+  else if comp =? 81 then run_parse_string inp
+  else if comp =? 82 then run_parse_stream inp
   else [-3].
